@@ -27,6 +27,9 @@ type c02Case struct {
 	Prefix []uint32 `json:"prefix,omitempty"`
 	// Args: how the extension list is spelled when the (fresh) parser is built: rev | dup | revdup
 	Args string `json:"args,omitempty"`
+	// Twice: the word is held in one byte buffer that a fresh parser is offered twice; the
+	// second outcome is judged (a refusal must leave the offered bytes as they are)
+	Twice bool `json:"same_buffer_twice,omitempty"`
 }
 
 // detailsText returns Details.String(), or a marker if it panics.
@@ -88,6 +91,22 @@ func c02Word(ps *riscv.Parser, c c02Case) (*eng.Fail, bool) {
 	}
 	c.Hex = fmt.Sprintf("%08x", c.Word)
 	bs := rvx.WordBytes(c.Word)
+	if c.Twice {
+		eng.Catch(func() { ps.Parse(0x1000, bs) })
+		cc := c
+		cc.Twice = false
+		f, acc := c02WordBuf(ps, cc, bs)
+		if f != nil {
+			f.Sig += " (second parse of one buffer)"
+			f.What += " — the same byte buffer had been offered to this parser once before"
+			f.Case = c
+		}
+		return f, acc
+	}
+	return c02WordBuf(ps, c, bs)
+}
+
+func c02WordBuf(ps *riscv.Parser, c c02Case, bs []byte) (*eng.Fail, bool) {
 	if c.Short {
 		var err error
 		p, stack := eng.Catch(func() { _, err = ps.Parse(0x1000, bs[:c.Len]) })
@@ -140,7 +159,7 @@ func c02Word(ps *riscv.Parser, c c02Case) (*eng.Fail, bool) {
 
 func init() {
 	checks["C02"] = eng.Check{
-		Rule:        "quick: the structured quotient of the word space — all 2^22 combinations of bits[31:20] x funct3 x opcode[6:0] with rd=rs1=0, and for rv32ima/rv64ima additionally each of them with every single rd/rs1 bit set and with rd=rs1=31 — in all 8 configurations; thorough: ALL 2^32 words x 8 configurations. Acceptance and mnemonic compared with a decoder table written from the specification listings. History independence: every instruction of the configuration (3 fillings of its operand bits) and 8 undefined words decoded on a fresh parser right after each of 12 other words (thorough: after every ordered pair of them), rejected and accepted ones of every matcher group; the same words on parsers built with the extension list in descending order. Inputs of length 0..3 and trailing bytes {00, ffffffff, the word again} on every accepted quotient word of two configurations. Non-trivial = accepted word.",
+		Rule:        "quick: the structured quotient of the word space — all 2^22 combinations of bits[31:20] x funct3 x opcode[6:0] with rd=rs1=0, and for rv32ima/rv64ima additionally each of them with every single rd/rs1 bit set and with rd=rs1=31 — in all 8 configurations; thorough: ALL 2^32 words x 8 configurations. Acceptance and mnemonic compared with a decoder table written from the specification listings. History independence: every instruction of the configuration (3 fillings of its operand bits) and 8 undefined words decoded on a fresh parser right after each of 12 other words (thorough: after every ordered pair of them), rejected and accepted ones of every matcher group; the same words on parsers built with the extension list in descending order; the same words and their byte-reversed forms held in one buffer that a fresh parser is offered twice (the second outcome is judged). Inputs of length 0..3 and trailing bytes {00, ffffffff, the word again} on every accepted quotient word of two configurations. Non-trivial = accepted word.",
 		Assumptions: []string{"reference: harness/rvref table (DESIGN.md appendix A): base I + Zicsr + M + A, fence with fm=rd=rs1=0, fence.i/ecall/ebreak exact words, reserved shamt bits zero, lr with rs2=0, aq/rl free"},
 		Run: func(r *eng.Run) {
 			cfgs := rvx.AllCfgs()
@@ -247,6 +266,22 @@ func init() {
 						}
 					}
 				})
+				// one byte buffer offered twice to a fresh parser: every target, and the byte-reversed
+				// form of every target (mostly undefined words)
+				for _, t := range targets {
+					rev := t<<24 | t>>24 | t<<8&0xff0000 | t>>8&0xff00
+					for _, w := range []uint32{t, rev} {
+						f, acc := c02Word(nil, c02Case{Cfg: cfg, Word: w, Twice: true})
+						r.Eval(1)
+						if acc {
+							r.Nontrivial(1)
+						}
+						if f != nil {
+							r.Report(f)
+							r.Outcome(f.Sig)
+						}
+					}
+				}
 				// the same configuration requested with its extension list in descending order: every
 				// instruction and the undefined words again
 				for _, sp := range []string{"rev"} { // (repeating an extension is documented as undefined)
